@@ -16,6 +16,8 @@ type Val struct {
 	Typ types.Type
 	Clo *Closure // statically known function value
 	Loc *Loc     // interior pointer (address of scalar field / element)
+	GT  string   // ghost map type text (ghost values only)
+	GPkg *types.Package
 }
 
 type Closure struct {
